@@ -221,15 +221,16 @@ def run(rep, tier):
     run_jobs(rep, __name__, jobs)
     rep.floor('B-UNOP', len(UNOPS) * 19)
     rep.floor('B-MAGNITUDE', 19 * 79)
-    if tier == 'thorough':
-        dbn = get_db('num-traits')
-        rep.configs.append('num-traits')
-        njobs = [('nt', 'signum', p, 0, 'num-traits') for p in SCALES_ALL]
-        for p in (0, 1, 9, 18):
-            for q in (0, 2, 18):
-                njobs.append(('nt', 'abs_sub', p, q, 'num-traits'))
-        run_jobs(rep, __name__, njobs)
-        numtraits_forwarders(rep, dbn)
+    # the num-traits clause (feature-gated impls) is part of the statement: analysed in both tiers (configuration num-traits)
+    dbn = get_db('num-traits')
+    rep.configs.append('num-traits')
+    njobs = [('nt', 'signum', p, 0, 'num-traits') for p in SCALES_ALL]
+    for p in (0, 1, 9, 18):
+        for q in (0, 2, 18):
+            njobs.append(('nt', 'abs_sub', p, q, 'num-traits'))
+    run_jobs(rep, __name__, njobs)
+    numtraits_forwarders(rep, dbn)
+    rep.floor('B-NUMTRAITS', len(njobs))
     rep.explanation = ('Abstract interpretation per scale cell with a symbolic coefficient: each return path must imply the defining inequalities of floor / ceil / trunc / '
                        'fract (e.g. 0 <= x - 10^p*floor < 10^p), the exact terms -x and |x| for neg/abs, and the exact truth condition of the four predicates. '
                        'magnitude: for each of the 39 decades [10^k, 10^(k+1)-1] (cut at 2^127-1), both signs and all 19 scales the interval x known-bits analysis of '
